@@ -294,6 +294,9 @@ impl<T> Parser<T> for ParseOrElse<T> {
             Err(err) => (None, Some(err)),
         };
 
+        // branches run on copies: keep the note that one of them read an environment variable
+        args.env_used |= args_a.env_used || args_b.env_used;
+
         if this_or_that_picks_first(
             err_a,
             err_b,
